@@ -93,6 +93,13 @@ SysRename(a, b) ==
     /\ pend' = Append(pend, [k |-> IF a = "T" THEN "set" ELSE "move", n |-> b, m |-> a, i |-> vdir[a]])
     /\ UNCHANGED <<ctx, ddir, vdata, ddata, nextIno, ret, foreign>>
 
+\* link(a, b): a second name for the same inode (a set-admin done as link + unlink instead of rename)
+SysLink(a, b) ==
+    /\ vdir[a] # 0 /\ b \in {"F", "G"} /\ vdir[b] = 0
+    /\ vdir' = [vdir EXCEPT ![b] = vdir[a]]
+    /\ pend' = Append(pend, [k |-> "set", n |-> b, m |-> a, i |-> vdir[a]])
+    /\ UNCHANGED <<ctx, ddir, vdata, ddata, nextIno, ret, foreign>>
+
 SysUnlink(n) ==
     /\ vdir[n] # 0
     /\ vdir' = [vdir EXCEPT ![n] = 0]
@@ -185,6 +192,9 @@ FailureChangesNothing == ret = "fail" => Unchanged(KillView)
 
 (* C16: the work area is empty after each completed operation *)
 TmpEmptyAfterOp == ret # "none" => vdir["T"] = 0
+
+(* C16: a completed operation (successful or not) never leaves two files for one user *)
+OneFilePerUser == ret # "none" => ~(vdir["F"] # 0 /\ vdir["G"] # 0)
 
 (* C03 / C15: only the user's own files, .tmp and the base directory are touched *)
 OnlyOwnPaths == ~foreign
